@@ -845,7 +845,7 @@ class FuncLowerer:
                 # verification-only identity on a loop-modified pointer: p = base + (p - base).  The loop invariant must state
                 # same_object(p, base); the statement changes no value, it only gives cbmc's dereferencing the object back after
                 # the loop-contract instrumentation has havoced p (a havoced pointer dereferences to an unconstrained object).
-                self._rebase.append('%s = (%s) + ((%s) - (%s)); /* VF_REBASE: identity, see DESIGN */' % (m.group(1), m.group(2), m.group(1), m.group(2)))
+                self._rebase.append('\n#ifdef VF_LOOPS_APPLIED\n%s = (%s) + ((%s) - (%s)); /* VF_REBASE: identity; only in jobs that apply loop contracts (the pointer is havoced there), see DESIGN */\n#endif\n' % (m.group(1), m.group(2), m.group(1), m.group(2)))
             else:
                 lines.append('    ' + x)
         return lines
